@@ -28,6 +28,99 @@ func init() {
 	sut.RegisterOp("c17_qstats", opQStats)
 	sut.RegisterOp("c17_es", opESSearch)
 	sut.RegisterOp("c17_script", opScript)
+	sut.RegisterOp("c17_gbase", opGBase)
+	sut.RegisterOp("c17_gleak", opGLeak)
+}
+
+// ---- exact goroutine oracle for the Exec sub-check --------------------------------------------
+// c17_gbase remembers every goroutine alive now (after ingest, before the first query of the case);
+// c17_gleak reports the goroutines that were started since, have a frame in a per-query package and
+// stay in a waiting state with an unchanged stack for leakStableMs. No query is in flight when it
+// is called (the Exec check issues its queries one by one and each call has returned).
+
+var execBaseIDs map[uint64]bool
+
+func opGBase(req *sut.Req) (interface{}, error) {
+	execBaseIDs = map[uint64]bool{}
+	for _, g := range allGoroutines() {
+		execBaseIDs[g.ID] = true
+	}
+	return len(execBaseIDs), nil
+}
+
+type gLeakRep struct {
+	Leaked   []leakedGorou `json:"leaked"`
+	Moving   int           `json:"moving"` // per-query goroutines still moving when the budget ended
+	WaitedMs int64         `json:"waitedMs"`
+	Dumps    int           `json:"dumps"`
+}
+
+func opGLeak(req *sut.Req) (interface{}, error) {
+	rep := &gLeakRep{}
+	if execBaseIDs == nil {
+		return rep, nil
+	}
+	maxMs := int64(req.Size)
+	if maxMs <= 0 {
+		maxMs = 20_000
+	}
+	type seenG struct {
+		first, sigSince time.Time
+		sig             string
+	}
+	seen := map[uint64]*seenG{}
+	t0 := time.Now()
+	for {
+		now := time.Now()
+		rep.Dumps++
+		var offenders []goroutineInfo
+		present := map[uint64]bool{}
+		for _, g := range allGoroutines() {
+			if execBaseIDs[g.ID] || g.Query == "" {
+				continue
+			}
+			offenders = append(offenders, g)
+			present[g.ID] = true
+			if sg := seen[g.ID]; sg == nil {
+				seen[g.ID] = &seenG{first: now, sigSince: now, sig: g.Sig}
+			} else if sg.sig != g.Sig {
+				sg.sig, sg.sigSince = g.Sig, now
+			}
+		}
+		for id := range seen {
+			if !present[id] {
+				delete(seen, id)
+			}
+		}
+		if len(offenders) == 0 {
+			break
+		}
+		moving := 0
+		for _, g := range offenders {
+			if !g.Waiting || now.Sub(seen[g.ID].sigSince) < leakStableMs*time.Millisecond {
+				moving++
+			}
+		}
+		if moving == 0 || now.Sub(t0).Milliseconds() > maxMs {
+			rep.Moving = moving
+			for _, g := range offenders {
+				sg := seen[g.ID]
+				if !g.Waiting || now.Sub(sg.sigSince) < leakStableMs*time.Millisecond || len(rep.Leaked) >= 20 {
+					continue
+				}
+				stack := g.Text
+				if len(stack) > 3000 {
+					stack = stack[:3000] + "..."
+				}
+				rep.Leaked = append(rep.Leaked, leakedGorou{ID: g.ID, State: g.State, Func: g.Query, Waiting: g.Waiting,
+					StableMs: now.Sub(sg.sigSince).Milliseconds(), SeenMs: now.Sub(sg.first).Milliseconds(), Stack: stack})
+			}
+			break
+		}
+		time.Sleep(150 * time.Millisecond)
+	}
+	rep.WaitedMs = time.Since(t0).Milliseconds()
+	return rep, nil
 }
 
 // qStats is what the query tables look like from outside.
